@@ -11,7 +11,9 @@ SIGPLANS = [[], [P.ts(0, 4, 4)], [P.ts(0, 3, 4)], [P.ts(0, 4, 4), P.ts(6, 3, 4)]
             [P.ts(8, 6, 8)], [P.ks(0, "D"), P.ks(6, "A")],
             # a return to an earlier signature (X - Y - X), within one member and spread over several
             [P.ts(0, 4, 4), P.ts(6, 3, 4), P.ts(12, 4, 4)], [P.ks(0, "C"), P.ks(5, "G"), P.ks(9, "C")], [P.ts(12, 4, 4)],
-            [P.ts(0, 4, 4), P.ks(0, "D"), P.ts(4, 3, 4), P.ks(4, "A"), P.ts(10, 4, 4), P.ks(10, "D")]]
+            [P.ts(0, 4, 4), P.ks(0, "D"), P.ts(4, 3, 4), P.ks(4, "A"), P.ts(10, 4, 4), P.ks(10, "D")],
+            # enharmonic twins are different key signature events
+            [P.ks(0, "C#"), P.ks(6, "Db")], [P.ks(0, "Gb"), P.ks(5, "F#")], [P.ks(3, "Cb")], [P.ks(0, "B"), P.ks(3, "Cb"), P.ks(8, "B")]]
 
 
 def execute(case):
